@@ -182,22 +182,6 @@ func hostHasOtherPort(allConfigs []*SiteConfig, thisConfigIdx int, otherPort str
 // be the HTTPS configuration. The returned configuration is set
 // to listen on certmagic.HTTPPort. The TLS field of cfg must not be nil.
 func redirPlaintextHost(cfg *SiteConfig) *SiteConfig {
-	redirPort := cfg.Addr.Port
-	if redirPort == strconv.Itoa(certmagic.HTTPSPort) {
-		// By default, HTTPSPort should be DefaultHTTPSPort,
-		// which of course doesn't need to be explicitly stated
-		// in the Location header. Even if HTTPSPort is changed
-		// so that it is no longer DefaultHTTPSPort, we shouldn't
-		// append it to the URL in the Location because changing
-		// the HTTPS port is assumed to be an internal-only change
-		// (in other words, we assume port forwarding is going on);
-		// but redirects go back to a presumably-external client.
-		// (If redirect clients are also internal, that is more
-		// advanced, and the user should configure HTTP->HTTPS
-		// redirects themselves.)
-		redirPort = ""
-	}
-
 	operatorPresent := !casket.Started()
 	if !casket.Quiet && operatorPresent {
 		fmt.Println("[INFO] Creating automatic HTTP->HTTPS redirect for", cfg.Addr.Host)
@@ -205,6 +189,26 @@ func redirPlaintextHost(cfg *SiteConfig) *SiteConfig {
 
 	redirMiddleware := func(next Handler) Handler {
 		return HandlerFunc(func(w http.ResponseWriter, r *http.Request) (int, error) {
+			// Read the port of the HTTPS site now rather than when this
+			// config is made: a site defined without a port and without
+			// managed TLS (self-signed or own certificate) is only given
+			// its port afterwards, by MakeServers.
+			redirPort := cfg.Addr.Port
+			if redirPort == strconv.Itoa(certmagic.HTTPSPort) {
+				// By default, HTTPSPort should be DefaultHTTPSPort,
+				// which of course doesn't need to be explicitly stated
+				// in the Location header. Even if HTTPSPort is changed
+				// so that it is no longer DefaultHTTPSPort, we shouldn't
+				// append it to the URL in the Location because changing
+				// the HTTPS port is assumed to be an internal-only change
+				// (in other words, we assume port forwarding is going on);
+				// but redirects go back to a presumably-external client.
+				// (If redirect clients are also internal, that is more
+				// advanced, and the user should configure HTTP->HTTPS
+				// redirects themselves.)
+				redirPort = ""
+			}
+
 			// Construct the URL to which to redirect. Note that the Host in a
 			// request might contain a port, but we just need the hostname from
 			// it; and we'll set the port if needed.
